@@ -196,7 +196,7 @@ fn run_case(id: String, seed: u64, n: usize, parts: usize, nq: usize, out: &mut 
 }
 
 pub fn run(ctx: &mut Ctx) {
-    let ncases = ctx.pick(48u64, 1500);
+    let ncases = ctx.pick(144u64, 1500);
     let nq = ctx.pick(100usize, 120);
     for i in 0..ncases {
         if i >= 48 && ctx.out_of_time() {
